@@ -300,9 +300,12 @@ def time_sections(ctx, pid):
     from ..pyvc.timetheory import OffsetTheory
     o = Section("decoder-zone-offset-contract", "smt",
                 rule="ODLDecoder.decode_datetime (ODL and Omni receivers): an offset suffix is attached only to a time / date-time that the "
-                     "plain decoder accepts without it and that is not marked Z, and the attached zone is sign * (HH hours + MM minutes)")
+                     "plain decoder accepts without it and that is not marked Z, and the attached zone is sign * (HH hours + MM minutes); "
+                     "PDSLabelDecoder.decode_datetime: the plain cascade's result (no offset branch), refused when microsecond % 1000 != 0")
     t1 = time.time()
     verify_contracts(o, ce.offset_contracts(pid), OffsetTheory, ["pvl.decoder"], jobs=2)
+    from ..pyvc.timetheory import PdsDecTheory
+    verify_contracts(o, ce.pds_decoder_contracts(), PdsDecTheory, ["pvl.decoder"], jobs=1)
     o.assumptions += ["the groups of the inline offset pattern are symbolic: sign in {+,-}, hour 0..12, minute 0..59 (the pattern's language: "
                       "regex obligations offset:*); int() of a digit group is its number, an absent minute group is the default 0",
                       "super().decode_datetime: returns or raises ValueError (functional contract: T_dec); timezone() refuses offsets of a day or more"]
